@@ -3,6 +3,10 @@ package fr
 import (
 	"encoding/json"
 	"fmt"
+
+	sdk "github.com/cosmos/cosmos-sdk/types"
+
+	fundraising "github.com/tendermint/fundraising/x/fundraising/module"
 )
 
 // ReplayBehaviour runs one behaviour (a JSON array of input records starting with Init).
@@ -84,4 +88,53 @@ func replayOnce(b *Base, name string, bz []byte, digests bool, emit func(Step) e
 		}
 	}
 	return nil
+}
+
+// ExportAfter replays a behaviour and returns, as JSON, the module's exported genesis, the model-denom balances of
+// every model account (users, escrows, pool) keyed by bech32 address, and the name of every address.
+func ExportAfter(b *Base, bz []byte) ([]byte, error) {
+	var raws []map[string]any
+	var acts []Action
+	if err := json.Unmarshal(bz, &raws); err != nil {
+		return nil, err
+	}
+	if err := json.Unmarshal(bz, &acts); err != nil {
+		return nil, err
+	}
+	env, err := b.NewEnv(acts[0])
+	if err != nil {
+		return nil, err
+	}
+	for i := 1; i < len(acts); i++ {
+		s := env.Exec(acts[i], raws[i])
+		if !s.Res.Ok {
+			return nil, fmt.Errorf("step %d (%s) failed: %s", i, acts[i].A, s.Res.Err)
+		}
+	}
+	gs, err := fundraising.ExportGenesis(env.Ctx, env.K)
+	if err != nil {
+		return nil, err
+	}
+	gbz, err := b.App.AppCodec().MarshalJSON(gs)
+	if err != nil {
+		return nil, err
+	}
+	bal := map[string]string{}
+	for addr := range env.Name {
+		a, err := sdk.AccAddressFromBech32(addr)
+		if err != nil {
+			continue
+		}
+		coins := sdk.NewCoins()
+		for _, d := range ModelDenoms {
+			c := b.App.BankKeeper.GetBalance(env.Ctx, a, GoDenom(d))
+			if c.Amount.IsPositive() {
+				coins = coins.Add(c)
+			}
+		}
+		if !coins.IsZero() {
+			bal[addr] = coins.String()
+		}
+	}
+	return json.Marshal(map[string]any{"fundraising": json.RawMessage(gbz), "balances": bal, "names": env.Name})
 }
